@@ -236,6 +236,9 @@ TEMPLATES = {
     "menu2": ("switch (message_SwitchMenu(1, 2)) {\ncase menu2(5):\nzzin();\nbreak;\n}\nzzend();", "CaseMenu2", 0),
     "casevalue": ("switch ($X) {\ncase > 3:\nzzin();\nbreak;\n}\nzzend();", "CaseValue", 1),
     "switchhdr": ("switch (ProcessSpecial(0, 1, 2)) {\ncase 1:\nzzin();\nbreak;\n}\nzzend();", "ProcessSpecial", 0),
+    # the parameter of the context op itself: printed as the target in `zzprobe<actor X>(…)` / in `with (actor X) { … }`
+    "ctxtarget": ("with (actor 3) {\nzzprobe(1);\n}\nzzend();", "lives", 0),
+    "ctxtarget_with": ("with (object 3) {\n$X = 1;\n}\nzzend();", "object", 0),
 }
 _TPL_CACHE: dict = {}
 
